@@ -195,7 +195,8 @@ def c10(tier, seed):
         "reads_with_other_readers_inside", 0) > 0
     c.required_points = ["WAITLIST_ULT_WAIT", "BROADCAST_ULT", "BROADCAST_EXT"]
     c.required_counters = ["read_acquisitions", "write_acquisitions", "scripted_reader_inclusion",
-                           "reads_with_other_readers_inside", "yields_inside_cs"]
+                           "scripted_readers_admitted_together_after_writer", "reads_with_other_readers_inside",
+                           "yields_inside_cs"]
     return c
 
 
@@ -773,7 +774,9 @@ def c14(tier, seed):
                            "units_created_in_legacy_def_pool", "units_created_in_user_def_pool", "pools_fifo_policy",
                            "pools_lifo_policy", "pools_random_policy", "user_sched_ran_popped_thread",
                            "user_sched_ran_popped_unit", "user_sched_ran_after_reassociating_pool",
-                           "user_sched_pushed_to_other_pool"]
+                           "user_sched_pushed_to_other_pool", "user_sched_bulk_pushed_to_other_pool",
+                           "user_sched_ran_bulk_popped_threads", "scenarios_with_unit_quarantine",
+                           "scenarios_with_immediate_unit_address_reuse"]
     c.required_points = ["UNITMAP_REUSE_TOMBSTONE", "UNITMAP_APPEND", "UNITMAP_LONG_CHAIN"]
     return c
 
